@@ -10,21 +10,36 @@ func one(e ...core.Engine) func() []core.Engine { return func() []core.Engine { 
 
 var (
 	profC01 = sim.Profile{Name: "c01", Steps: 160, CanaryProb: 0.5, Hostile: 3, Churn: 3, Edits: 1.5, Holds: 0.3, Commands: 0.3, DupPods: 4, Affinity: -1, MaxNodes: 8, Converge: false}
+	profC04 = sim.Profile{Name: "c04", Steps: 140, CanaryProb: 1, Hostile: 1, Churn: 2, Edits: 2.5, Holds: 0.8, Commands: 1.5, DupPods: 0.5, Affinity: -1, MaxNodes: 8}
+	profC07 = sim.Profile{Name: "c07", Steps: 90, CanaryProb: 1, Hostile: 3, Churn: 0.7, Edits: 1.5, Holds: 0.5, Commands: 2, DupPods: 0.2, Affinity: -1, MaxNodes: 6, Converge: true, Retention: true}
+	profC08 = sim.Profile{Name: "c08", Steps: 120, CanaryProb: 0.5, Hostile: 1, Churn: 3, Edits: 1.5, Holds: 4, Commands: 3, DupPods: 0.3, Affinity: -1, MaxNodes: 7, Converge: true}
+	profC12 = sim.Profile{Name: "c12", Steps: 160, CanaryProb: 0.5, Hostile: 1, Churn: 1, Edits: 2, Holds: 0.5, Commands: 0.7, DupPods: 1, Affinity: -1, MaxNodes: 5, MultiEDS: true, OldDS: 0.3}
+	profC13 = sim.Profile{Name: "c13", Steps: 140, CanaryProb: 0.5, Hostile: 1, Churn: 0.7, Edits: 5, Holds: 0.5, Commands: 0.7, DupPods: 0.3, Affinity: -1, MaxNodes: 5, Converge: true}
+	profC14 = sim.Profile{Name: "c14", Steps: 100, CanaryProb: 0.5, Hostile: 2, Churn: 1.5, Edits: 1.5, Holds: 1, Commands: 1, DupPods: 1, Affinity: -1, MaxNodes: 6, Converge: true}
 	profC02 = sim.Profile{Name: "c02", Steps: 80, CanaryProb: 0.5, Hostile: 1.5, Churn: 1.5, Edits: 1.5, Holds: 0.7, Commands: 0.5, DupPods: 0.5, Affinity: -1, MaxNodes: 6, Converge: true, OldDS: 0.15}
 )
 
 func registry() core.Registry {
 	return core.Registry{
-		"C01": one(&sim.Sim{Prop: "C01", P: profC01, NQuick: 300, NThor: 6000, FloorsQ: map[string]int{}}),
+		"C01": one(&fn.C01{}, &sim.Sim{Prop: "C01", P: profC01, NQuick: 300, NThor: 6000, FloorsQ: map[string]int{}}),
 		"C02": one(&sim.Sim{Prop: "C02", P: profC02, NQuick: 200, NThor: 4000, FloorsQ: map[string]int{}}),
 		"C03": one(&fn.C03{}),
+		"C04": one(&sim.Sim{Prop: "C04", P: profC04, NQuick: 250, NThor: 5000, FloorsQ: map[string]int{}}),
+		"C07": one(&sim.Sim{Prop: "C07", P: profC07, NQuick: 200, NThor: 3000, FloorsQ: map[string]int{}}),
+		"C08": one(&sim.Sim{Prop: "C08", P: profC08, NQuick: 250, NThor: 5000, FloorsQ: map[string]int{}}),
+		"C11": one(&sim.C11{}),
+		"C12": one(&sim.Sim{Prop: "C12", P: profC12, NQuick: 200, NThor: 3000, FloorsQ: map[string]int{}}),
+		"C13": one(&sim.Sim{Prop: "C13", P: profC13, NQuick: 200, NThor: 3000, FloorsQ: map[string]int{}}),
 		"C05": one(&fn.C05{}),
 		"C06": one(&fn.C06{}),
 		"C09": one(&fn.C09{}),
 		"C10": one(&fn.C10{}),
-		"C14": one(&fn.C14{}),
+		"C14": one(&fn.C14{}, &sim.Sim{Prop: "C14", P: profC14, NQuick: 150, NThor: 3000, FloorsQ: map[string]int{}}),
 		"C15": one(&fn.C15{}),
+		"C16": one(&fn.C16{}),
+		"C17": one(&sim.C17{}),
 		"C18": one(&fn.C18{}),
+		"C19": one(&sim.C19{}),
 		"C20": one(&fn.C20{}),
 	}
 }
@@ -38,4 +53,8 @@ func levelOf(prop string) string {
 
 func crashIsViolation(prop string) bool {
 	return prop == "C16" || prop == "C17" || prop == "C11"
+}
+
+func usesRaceBuild(prop, tier string) bool {
+	return prop == "C17"
 }
